@@ -44,9 +44,9 @@ type Prop struct {
 	Gen         func(t *rapid.T) any
 	New         func() any
 	Check       func(c any) Result
-	Quick       int // rapid cases in the quick tier
-	Thorough    int // rapid cases per shard in the thorough tier
-	Shards      int // shards in the thorough tier (default 16)
+	Quick       int  // rapid cases in the quick tier
+	Thorough    int  // rapid cases per shard in the thorough tier
+	Shards      int  // shards in the thorough tier (default 16)
 	Race        bool // run every shard under the race detector
 	// RaceQuick / RaceThorough: number of cases of an additional shard built with -race
 	RaceQuick, RaceThorough int
